@@ -49,7 +49,14 @@ TOOLS = [
     ("Disassembler", "src/lang/merlin/disassembly.rs", "Disassembler"),
     ("Assembler", "src/lang/merlin/assembly.rs", "Assembler"),
     ("MerlinParser", "src/lang/merlin/mod.rs", "MerlinParser"),
+    # the track reader objects of the nibble images (WOZ1 / WOZ2 / NIB): `bit_ptr` is the head position, seeded from the
+    # image's `head_coords` by `new_rw_obj`, i.e. from wherever the last sector read stopped.  Their entry points are the
+    # methods of `impl img::TrackBits for TrackBits`.
+    ("TrackBits525", "src/img/disk525.rs", "TrackBits"),
+    ("TrackBits35", "src/img/disk35.rs", "TrackBits"),
 ]
+# tools whose entry points are the methods of their trait impls (not only `pub fn`s)
+TRAIT_ENTRY_TOOLS = {"TrackBits525": "TrackBits", "TrackBits35": "TrackBits"}
 # default methods of traits the tools implement
 TRAIT_FILES = [("src/lang/mod.rs", "Navigate"), ("src/lang/linenum.rs", "Renumber")]
 # entry points that exist only to keep old dependents compiling / are not tool calls
@@ -62,14 +69,14 @@ trim trim_start trim_end find rfind lines chars bytes split first last cloned co
 captures map map_or and_then filter eq ne cmp min max to_vec join replace into_iter is_char_boundary ok""".split())
 
 
-def _methods(s, spans_impl, struct):
+def _methods(s, spans_impl, struct, trait_entries=None):
     """{name: (params_text, body_open, body_close, is_pub, receiver)} for every fn inside an impl of `struct`"""
     out = {}
     for hdr, a, b, c in find_spans(s, r"\bfn\s+\w+"):
         owner = None
-        for ih, ib, ic in spans_impl:
+        for ih, ib, ic, itrait in spans_impl:
             if ib < a < ic and (owner is None or ib > owner[1]):
-                owner = (ih, ib)
+                owner = (ih, ib, itrait)
         if owner is None or owner[0] != struct:
             continue
         name = re.match(r"fn\s+(\w+)", hdr).group(1)
@@ -81,7 +88,9 @@ def _methods(s, spans_impl, struct):
             recv = "mut" if "mut" in rm.group(1) else "ref"
         pre = s[max(0, a - 40):a]
         is_pub = re.search(r"\bpub(\s*\([^)]*\))?\s*$", pre) is not None
-        out[name] = (params, b, c, is_pub, recv)
+        # tools listed in TRAIT_ENTRY_TOOLS: the entry points are exactly the methods of that trait's impl (their
+        # inherent `pub fn`s are the bit-level head primitives the trait methods are built from)
+        out[name] = (params, b, c, is_pub if trait_entries is None else owner[2] == trait_entries, recv)
     return out
 
 
@@ -137,11 +146,11 @@ class Tool:
         if not self.fields:
             raise TranslatorError("%s: struct %s has no fields" % (rel, struct))
         impls = _impls(s)
-        self.methods = _methods(s, [(h, b, c) for h, b, c, _ in impls], struct)
+        self.methods = _methods(s, impls, struct, TRAIT_ENTRY_TOOLS.get(name))
         self.trait_methods = trait_methods      # name -> (text, params, body_open, body_close)
         self.receivers = receivers              # method name -> {"ref","mut","own"} over all of src/
-        if "new" not in self.methods:
-            raise TranslatorError("%s: %s::new not found" % (rel, struct))
+        if "new" not in self.methods and "create" not in self.methods:
+            raise TranslatorError("%s: %s::new / ::create not found" % (rel, struct))
 
     # ---------------------------------------------------------------------------------------- analysis
     def body_of(self, name):
@@ -502,6 +511,12 @@ def generate(repo):
     for lean, field in [("Program", "minified_program"), ("Deleted", "deleted_lines"), ("AllLines", "all_lines"), ("LineMap", "line_map"),
                         ("ForbidsNext", "forbids_combining_next"), ("Refs", "linenum_refs"), ("ForbidsAny", "forbids_combining_any")]:
         L.append("def minifierResets%s : Bool := %s" % (lean, str(flag("Minifier", "minify", field, "reset")).lower()))
+    L.append("/-- the track readers: does the entry point rotate the disk to the reference bit (`self.reset()`, i.e. `bit_ptr = 0`)")
+    L.append("before anything reads the head position?  `chs_map` / `chss_map` list the sectors \"in time order\" (geometry JSON),")
+    L.append("`to_nibbles` dumps one revolution (track dump) -/")
+    for tn, lean in (("TrackBits525", "trackBits525"), ("TrackBits35", "trackBits35")):
+        for en, suffix in (("chs_map", "ChsMapResets"), ("chss_map", "ChssMapResets"), ("to_nibbles", "ToNibblesResets")):
+            L.append("def %s%s : Bool := %s" % (lean, suffix, str(flag(tn, en, "bit_ptr", "reset")).lower()))
     L.append("/-- `ends_with_str` is read by stage 3 before it is assigned (the read is dead: `combining` is false then) -/")
     L.append("def minifierCarriesEndsWithStr : Bool := %s" % str(flag("Minifier", "minify", "ends_with_str", "carried")).lower())
     paths = [os.path.join(repo, t.rel) for t in tools] + [os.path.join(repo, r) for r, _ in TRAIT_FILES] + [CARRY_TABLE]
